@@ -94,15 +94,6 @@ func vfHSRecover(fn func()) (panicked bool, text, site string) {
 	return
 }
 
-func vfHSFreePort() int {
-	l, err := net.Listen("tcp", "127.0.0.1:0")
-	if err != nil {
-		return 0
-	}
-	defer l.Close()
-	return l.Addr().(*net.TCPAddr).Port
-}
-
 // TestVerifC13HTTPServer: every HTTPServer spec accepted by supervisor.NewSpec must build its
 // mux, start its listener, route any request and shut down without panicking.
 func TestVerifC13HTTPServer(t *testing.T) {
@@ -143,7 +134,7 @@ func TestVerifC13HTTPServer(t *testing.T) {
 		}
 		tree := map[string]interface{}{}
 		g.Struct(specT, "", tree)
-		port := vfHSFreePort()
+		port := vfPickPort()
 		if port == 0 {
 			rt.Fatalf("VF-INCONCLUSIVE no free TCP port")
 		}
@@ -273,7 +264,7 @@ func TestVerifC13HTTPServer(t *testing.T) {
 			vf.Class(fmt.Sprintf("status=%d", w.Code))
 		}
 		// one request through the real listener (limit listener, keep-alive settings, TLS config)
-		if r.getState() == stateRunning && g.chance("req", "socket", 50) {
+		if r.getState() == stateRunning && g.chance("req", "socket", 4) {
 			scheme := "http"
 			if https {
 				scheme = "https"
